@@ -39,8 +39,8 @@ def main(c):
         # features carquet does not implement
         du = os.path.join(base, 'unsup'); os.makedirs(du)
         shards = []
-        for ui, un in enumerate(['DELTA', 'DELTA_LEN', 'DELTA_BA', 'BSS', 'v2', 'codec3', 'codec4', 'codec99']):
-            cu = refgen.make_corpus(du, c.seed * 211 + ui, 40 if c.tier == 'thorough' else 8, nested_share=0.2, features={'unsupported': un, 'dict': False, 'unknown_fields': False, 'codec': 0 if un.startswith('codec') else None} if un.startswith('codec') else {'unsupported': un, 'dict': False, 'unknown_fields': False})
+        for ui, un in enumerate(['DELTA', 'DELTA_LEN', 'DELTA_BA', 'BSS', 'v2', 'BIT_PACKED_LEVELS', 'codec3', 'codec4', 'codec99']):
+            cu = refgen.make_corpus(du, c.seed * 211 + ui, (120 if un == 'BIT_PACKED_LEVELS' else 40) if c.tier == 'thorough' else (30 if un == 'BIT_PACKED_LEVELS' else 8), nested_share=0.2, features={'unsupported': un, 'dict': False, 'unknown_fields': False, 'codec': 0 if un.startswith('codec') else None} if un.startswith('codec') else {'unsupported': un, 'dict': False, 'unknown_fields': False})
             args = [c.seed]
             for pq, td, f in cu:
                 args += [pq, td]
